@@ -124,4 +124,22 @@ PROPS = {
             'swap_subtrees with a shared parent',
         ],
     },
+    'C19': {
+        'level': 'proof',
+        'level_text': 'partial: with the random number generator as an arbitrary oracle (stronger than "for all seeds"), Verus proves on the extracted real text of generate.rs that random_ccz appends exactly one CCZ on three different qubits of the first half, random_clifford_layer appends exactly clifford_depth Z/CZ gates on different in-range qubits, and RandomCircuitBuilder::build returns at most depth gates of kinds CNOT/CZ/H/S/T on different qubits below the qubit count, without panicking (index shifting for distinct qubits). Reproducibility, the hidden-shift promise and the Pauli-gadget builder are covered only by the bounded search; stabiliser-state norm not at all',
+        'level_note': 'assumed: StdRng::random_range(a..b) returns a value in [a,b) and panics only on an empty range; f32 arithmetic replaced by uninterpreted functions; Gate/Circuit contracts re-verified in the same file (unit circuit included)',
+        'technique': 'Verus contracts on generator functions of generate.rs with the RNG stubbed as an arbitrary oracle',
+        'verus': ['generate'],
+        'assumptions': [
+            'rand::rngs::StdRng is replaced by an oracle stub: random_range(a..b) in [a, b) (precondition a < b, the only panic), random_bool / random::<f32>() arbitrary',
+            'f32 `+=` and `<` are replaced by uninterpreted functions (Verus has no float theory): the clause "gate kinds with non-zero probability only" is therefore NOT proved, only "kinds from the configured set"',
+            'everything assumed by units circuit and phase',
+        ],
+        'supported_range': ['random_ccz: qubits/2 >= 3 (hidden shift requires qubits >= 6)', 'random_clifford_layer: qubits/2 >= 2', 'RandomCircuitBuilder::build: qubits >= 2 or depth == 0 (qubits == 1 makes random_range(0..0) panic: weakest precondition, reported)'],
+        'not_covered': [
+            'reproducibility (a two-run relational property; holds if StdRng is deterministic — bounded search only)',
+            'hidden-shift promise and unit norm of stabiliser states (quantum semantics — bounded search for the former, nothing for the latter)',
+            'RandomPauliGadgetCircuitBuilder::build (collect / sort / swap_remove pipelines — bounded search only), SurfaceCodeCircuitBuilder',
+        ],
+    },
 }
